@@ -44,8 +44,8 @@ def scan_forbidden():
     return bad
 
 
-EXTRA_MODULES = {"C01": ["H1", "Ctl", "ExportGen"], "C02": ["H1", "Ctl"], "C04": ["C04c", "Ctl"], "C05": ["Ctl"], "C06": ["C06Refine", "H1", "Ctl"], "C07": ["C07b", "H1", "Ctl"],
-                 "C09": ["Ctl", "ExportGen"], "C10": ["Ctl", "ExportGen"], "C11": ["Ctl"], "C12": ["H1", "Ctl"], "C14": ["C14b", "H1", "Ctl"], "C15": ["Ctl"],
+EXTRA_MODULES = {"C01": ["H1", "Ctl", "ExportGen"], "C02": ["H1", "Ctl"], "C04": ["C04c", "Ctl"], "C05": ["Ctl"], "C06": ["C06Refine", "C06c", "H1", "Ctl"], "C07": ["C07b", "H1", "Ctl"],
+                 "C09": ["Ctl", "ExportGen"], "C10": ["Ctl", "ExportGen"], "C11": ["Ctl"], "C12": ["H1", "Ctl"], "C14": ["C14b", "H1", "Ctl"], "C15": ["C15b", "Ctl"],
                  "C16": ["C16b", "H1"], "C17": ["C17b", "Ctl"]}
 SHARED_MODULES = {"H1", "Ctl", "ExportGen"}                     # modules holding theorems of several properties: only the `Cnn_…` ones count for Cnn     # further theorem files that belong to a property
 
